@@ -190,30 +190,31 @@ def dyadic_ok(vals, fbits=12, mag=1024):
     return True
 
 
+def fexact(fr):
+    try:
+        return Fraction(float(fr)) == fr
+    except OverflowError:
+        return False
+
+
 def exact_case(nobjs, dirs, ref, st, raw=False):
-    """every float operation of normalize / eps / squared distances / L1 distances is exact on this case:
-    the real normalize reproduces the Fraction quotients, and all (normalised) coordinates are dyadic with <= 12
-    fractional bits and magnitude <= 2^10, so differences, squares, sums of <= 5 squares and L1 sums need < 53 bits"""
+    """every float operation of normalize / eps / squared distances / L1 distances is exact on this case, decided on
+    Fractions alone (independently of the implementation): o - min, max - min and the quotient are binary64 numbers, and all
+    (normalised) coordinates are dyadic with <= 12 fractional bits and magnitude <= 2^10, so differences, squares, sums of
+    <= 5 squares and L1 sums need < 53 bits"""
     if raw:
         return dyadic_ok([Fraction(x) for m in st for x in m[1]])
     b = ref_bounds(nobjs, ref)
     if b is None:
         return True
-    from platypus.core import normalize
-    p, robjs, sobjs = build(nobjs, dirs, ref, st)
-    try:
-        lo, hi = normalize(robjs)
-        fs = [s for s in sobjs if s.constraint_violation == 0.0]
-        if fs:
-            normalize(fs, lo, hi)
-    except Exception:
-        return True
     allv = []
-    for s in [r for r in robjs if r.constraint_violation == 0.0] + fs:
-        z = nrm(list(s.objectives), b)
-        if [Fraction(x) for x in s.normalized_objectives] != z:
-            return False
-        allv += z
+    for m in [r for r in ref if r[2] == 0.0] + [s for s in st if s[2] == 0.0]:
+        for x, lo, hi in zip(m[1], b[0], b[1]):
+            a, w = Fraction(x) - lo, hi - lo
+            z = a / w
+            if not (fexact(a) and fexact(w) and fexact(z)):
+                return False
+            allv.append(z)
     return dyadic_ok(allv)
 
 
@@ -449,10 +450,41 @@ FIXED = [
 ]
 
 
+
+# Outside the statement of C16 (which quantifies over ONE reference set and ONE approximation set): the reference set is
+# normalised once, onto the objects, so another indicator that re-normalises a shared object changes later results.  The probe
+# records what the real code does; set REPORT_HISTORY_DEPENDENCE = True to turn the observation into a violation.
+REPORT_HISTORY_DEPENDENCE = False
+
+
+def probe_history(ctx):
+    from platypus import GenerationalDistance, InvertedGenerationalDistance, EpsilonIndicator, Hypervolume
+    p = plat.mk_problem(2, [False, False])
+    ref = [plat.mk_solution(p, o) for o in ([0.0, 1.0], [0.5, 0.25], [1.0, 0.0])]
+    res = [plat.mk_solution(p, o) for o in ([0.25, 0.75], [0.75, 0.5])]
+    gd, igd, eps = GenerationalDistance(ref), InvertedGenerationalDistance(ref), EpsilonIndicator(ref)
+    before = [gd(res), igd(res), eps(res)]
+    GenerationalDistance([ref[0], plat.mk_solution(p, [-4.0, 5.0])])           # shares object ref[0]
+    after_ctor = [gd(res), igd(res), eps(res)]
+    gd, igd, eps = GenerationalDistance(ref), InvertedGenerationalDistance(ref), EpsilonIndicator(ref)
+    Hypervolume(reference_set=ref).calculate(ref)                              # inverts normalized_objectives of the reference objects
+    after_hv = [gd(res), igd(res), eps(res)]
+    ctx.count(9)
+    obs = {"gd,igd,eps fresh": before, "after constructing a second indicator sharing a reference object": after_ctor,
+           "after Hypervolume(reference_set=ref)(ref)": after_hv,
+           "history_dependent": before != after_ctor or before != after_hv,
+           "model": "Props/C16.v c16_shared_reference_objects_refuted predicts it (GD terms [1/8,1/8] -> [5/16,1/8])"}
+    ctx.coverage["observation_outside_statement(reference normalisation shared between indicators)"] = obs
+    if REPORT_HISTORY_DEPENDENCE and obs["history_dependent"]:
+        ctx.violation("indicator:reference-normalisation-overwritten-by-other-indicator",
+                      "GD/IGD/eps of the same arguments change after another indicator touched the reference objects: %r" % obs, {"kind": "history"})
+
+
 def run(ctx):
     rng = ctx.rng
+    probe_history(ctx)
     cases = [(n, list(d), list(r), list(s)) for n, d, r, s in FIXED]
-    per = ctx.scale(10, 80)
+    per = ctx.scale(14, 80)
     for nobjs in (1, 2, 3, 4, 5):
         alld = list(itertools.product([False, True], repeat=nobjs))
         for dirs in alld:
@@ -541,7 +573,7 @@ def run(ctx):
     ctx.rule = ("function cases on dyadic grids: 1-5 objectives x every direction vector; reference sets of 0-7 members whose feasible members span power-of-two ranges "
                 "([0,1],[0,2],[-1,1],[0,4],[1,2],[-2,2],[0,.5]) plus rejected ones (empty, no feasible member, degenerate range); sets of 0-7 listed solutions inside/outside the "
                 "reference bounds with infeasible members, duplicates, the same object twice, reference objects listed in the set, no feasible member. A case is kept only if every float "
-                "operation is exact (real normalize == Fraction quotient; normalised coordinates dyadic with <= 12 fractional bits), else discarded and counted. "
+                "operation is exact (decided on Fractions: o-min, max-min, quotient are binary64 numbers; normalised coordinates dyadic with <= 12 fractional bits), else discarded and counted. "
                 "non-trivial = accepted reference set, at least one feasible member AND (a maximised objective, a member outside the bounds, an infeasible member or a repeated object); "
                 "distinct by full input. evaluations counts every call of a real indicator class")
     imports = ["Base.Num", "Model.Indicators", "Harness.H16"]
@@ -575,6 +607,8 @@ def replay(ctx, data):
             ctx.count(2)
             if e1[0] == "ok" and e2[0] == "ok" and e2[1] < e1[1] - (0 if rp.get("exact") else 1e-9):
                 ctx.violation(data.get("key", "eps:decreases-when-members-get-worse"), "[replay] eps %r -> %r" % (e1[1], e2[1]), rp)
+    elif rp.get("kind") == "history":
+        probe_history(ctx)
     elif rp.get("kind") == "spacing":
         nobjs, dirs, ref, st = from_json(rp["case"])
         for seed in range(4):
